@@ -60,7 +60,7 @@ def rand_text(r, maxlen=None):
 
 
 def valid_date(r):
-    y = r.choice([1, 999, 1900, 1999, 2000, 2023, 2024, 9999])
+    y = r.choice([1, 999, 1900, 1999, 2000, 2023, 2024, 9999, 2100, 2400, 1600])
     m = r.randrange(1, 13)
     dim = [31, 29 if (y % 4 == 0 and y % 100 != 0) or y % 400 == 0 else 28, 31, 30, 31, 30, 31, 31, 30, 31, 30, 31][m - 1]
     d = r.choice([1, dim, r.randrange(1, dim + 1)])
@@ -82,7 +82,8 @@ def admissible(r, sp):
         v = rand_text(r)
         return (v or None), ("none",)
     if k == "integer":
-        n = r.choice([0, 1, 7, 12, 999, r.randrange(0, 100000)])
+        n = r.choice([0, 1, 7, 12, 999, r.randrange(0, 100000), r.randrange(0, 100000), 9007199254740993, 20241206000003643,
+                      10 ** 22 + 1])
         txt = r.choice(["%d", "%d", "%d", "0%d", " %d", "%d ", "+%d"]) % n
         if sp["length"] is not None and len(str(n)) > sp["length"]:
             n, txt = 1, "1"
